@@ -177,6 +177,7 @@ func (resp *Response) Path() (string, error) {
 }
 
 func (resp *Response) DecodeProp(values ...interface{}) error {
+values:
 	for _, v := range values {
 		// TODO wrap errors with more context (XML name)
 		name, err := valueXMLName(v)
@@ -197,7 +198,7 @@ func (resp *Response) DecodeProp(values ...interface{}) error {
 			if err := raw.Decode(v); err != nil {
 				return newPropError(name, err)
 			}
-			return nil
+			continue values
 		}
 		return newPropError(name, &HTTPError{
 			Code: http.StatusNotFound,
